@@ -57,6 +57,11 @@ MUTANTS = {
         ('livep-exit', 'dashlive/server/requesthandler/manifest_context.py', '        while start <= timing.elapsedTime:', '        while start + duration <= timing.elapsedTime:'),
     ],
     'C13': [
+        ('od-read-len', 'dashlive/server/requesthandler/media_requests.py', "data = reader.read(1 + end - start)", "data = reader.read(end - start)"),
+        ('od-open-start', 'dashlive/server/requesthandler/media_requests.py', "with current_media_file.open_file(start=start) as reader:", "with current_media_file.open_file(start=0) as reader:"),
+        ('od-no-range-ok', 'dashlive/server/requesthandler/media_requests.py', "        if start is None:\n            logging.warning('HTTP range not specified')\n            return flask.make_response('HTTP range must be specified', 400)\n", "        if start is None:\n            start, end, status = 0, current_media_file.blob.size - 1, 206\n"),
+        ('od-416-body', 'dashlive/server/requesthandler/media_requests.py', "        data = b''\n        if status == 206:", "        data = b''\n        if status != 200:"),
+        ('od-mime', 'dashlive/server/requesthandler/media_requests.py', "        if ext == 'm4a':\n            headers['Content-Type'] = 'audio/mp4'\n        elif ext == 'm4v':", "        if ext == 'm4v':\n            headers['Content-Type'] = 'audio/mp4'\n        elif ext == 'm4a':"),
         ('range-no-suffix-clamp', 'dashlive/server/requesthandler/base.py', 'start = max(0, content_length - amount)', 'start = content_length - amount'),
         ('range-no-last-clamp', 'dashlive/server/requesthandler/base.py', 'end = min(int(end_str, 10), content_length - 1)', 'end = int(end_str, 10)'),
         ('range-416-lt', 'dashlive/server/requesthandler/base.py', 'if end >= content_length or end < start:', 'if end >= content_length or end <= start:'),
